@@ -141,32 +141,31 @@ func runC02(r *ev.Run) {
 	}
 
 	// --- U1: every legal move of every position of the classes ------------
-	classes := universe.ThreeMan()
-	classes = append(classes, parseClasses(seedPick(fourMan, r.Seed, ev.Pick(r, 1, 10)))...)
-	r.Set("classes", classNames(classes))
 	type worker struct {
 		ld  eng.Loader
 		buf [256]refchess.Move
 	}
 	var u1pos atomic.Int64
-	forClasses(r, classes, universe.Opts{}, func() *worker { return &worker{} }, func(w *worker, p *refchess.Pos) {
-		u1pos.Add(1)
-		b := w.ld.Load(p)
-		for _, m := range p.LegalMoves(w.buf[:0]) {
-			child := p.Make(m)
-			em := move.Move(m.Enc())
-			rv := b.MakeMove(em)
-			judge(b, &child, func() c02Case { return c02Case{FEN: p.FEN(), Moves: []string{m.String()}, Via: "api"} })
-			if child.Castle != p.Castle {
-				castleLoss.Add(1)
+	u1 := func(classes []universe.Class) {
+		forClasses(r, classes, universe.Opts{}, func() *worker { return &worker{} }, func(w *worker, p *refchess.Pos) {
+			u1pos.Add(1)
+			b := w.ld.Load(p)
+			for _, m := range p.LegalMoves(w.buf[:0]) {
+				child := p.Make(m)
+				em := move.Move(m.Enc())
+				rv := b.MakeMove(em)
+				judge(b, &child, func() c02Case { return c02Case{FEN: p.FEN(), Moves: []string{m.String()}, Via: "api"} })
+				if child.Castle != p.Castle {
+					castleLoss.Add(1)
+				}
+				if m.Promo != 0 {
+					promos.Add(1)
+				}
+				b.UndoMove(em, rv)
 			}
-			if m.Promo != 0 {
-				promos.Add(1)
-			}
-			b.UndoMove(em, rv)
-		}
-	})
-	r.Set("u1_positions", u1pos.Load())
+		})
+	}
+	u1(universe.ThreeMan())
 
 	// --- U2: chains below the root corpus, through the API and through UCI --
 	roots := universe.AllRoots()
@@ -227,6 +226,12 @@ func runC02(r *ev.Run) {
 
 	// --- counter edges: long reversible lines (clock beyond 100, full-move numbers)
 	c02CounterEdges(r, judge)
+
+	// --- seed-rotated 4-man classes last (cut by the internal deadline if need be)
+	extra := parseClasses(seedFour(r, 0, 1, 10))
+	r.Set("classes", append(classNames(universe.ThreeMan()), classNames(extra)...))
+	u1(extra)
+	r.Set("u1_positions", u1pos.Load())
 
 	r.States.Store(u1pos.Load() + u2nodes.Load() + epFam)
 	r.Transitions.Store(transitions.Load())
